@@ -86,6 +86,21 @@ def parseOp (st : St) : Nat → Json → R Op
   match k with
   | "setCell" => pure (.setCell (← str j "x") (← nat j "i") (← parseImm (← obj j "v")))
   | "rebind" => pure (.rebind (← str j "x") (← nat j "n"))
+  | "setAt" => pure (.setAt (← strs (← obj j "f")) (← str j "k") (← parseImm (← obj j "v")))
+  | "buildAttr" =>
+    let nodes ← (← arr j "nodes").toList.mapM fun nd => do
+      let kind ← match (← str nd "kind") with
+        | "list" => pure Kind.list
+        | "dict" => pure Kind.dict
+        | "tuple" => pure Kind.tuple
+        | "array" => pure Kind.array
+        | k => throw s!"bad node kind {k}"
+      let imms ← (← arr nd "imm").toList.mapM fun kv => do
+        match (← kv.getArr?).toList with
+        | [k, v] => do pure ((← k.getStr?), (← parseImm v))
+        | _ => throw "bad imm slot"
+      pure ((← strs (← obj nd "path")), (← str nd "key"), kind, imms)
+    pure (.buildAttr (← str j "x") nodes)
   | "assignFrom" =>
     -- the source array is the other root's variable *now* (the real call evaluates `other.Y` at call time)
     match nav st.heap (← rootLoc st (← str j "from")) ["_" ++ (← str j "fx")] with
@@ -192,6 +207,15 @@ def exec (st : St) (j : Json) : R St := do
   | "op" =>
     let op ← parseOp st 4 (← obj j "op")
     pure { st with heap := applyOp st.heap (← rootLoc st (← str j "r")) op }
+  | "subadd" =>   -- `linker.submodels[key] = <other root>`: the caller stores a reference (caller-made sharing,
+                 -- not one of the modelled API operations)
+    let target ← rootLoc st (← str j "of")
+    match nav st.heap (← rootLoc st (← str j "r")) ["submodels"] with
+    | some d =>
+      match st.heap[d]? with
+      | some o => pure { st with heap := st.heap.set d ⟨o.kind, slotSet o.slots (← str j "key") (.ref target)⟩ }
+      | none => throw "subadd: dangling"
+    | none => throw "subadd: no submodels dict"
   | "sub" =>   -- bind a root name to linker.submodels[key]
     match nav st.heap (← rootLoc st (← str j "of")) ["submodels", ← str j "key"] with
     | some l => pure (setRoot st (← str j "r") l)
